@@ -120,6 +120,20 @@ def instantiate(rng, cfg):
         msk = np.zeros((len(st), len(st)), dtype=bool)
         msk[0, 1] = True
         inst["fdkind"], inst["fd_blocks"], inst["masks"] = "dict", [b], {b: msk}
+        # variant: a second, SYMMETRIC mask on another block, listed after (or before) the asymmetric one
+        others = [x for x in range(3) if x != b and inst["sizes"][x] >= 2]
+        if others and cfg["container"] in ("dict", "list", "blockseries"):
+            b2 = others[0]
+            st2 = states_of(inst, b2)
+            inst["E"] = list(inst["E"])
+            if inst["E"][st2[0]] == inst["E"][st2[1]]:
+                raise Regenerate("degenerate pair in the second masked block")
+            if True:
+                sym = np.zeros((len(st2), len(st2)), dtype=bool)
+                sym[0, 1] = sym[1, 0] = True
+                order = [b2, b] if cfg["pos"] == "last" else [b, b2]
+                inst["fd_blocks"], inst["masks"] = order, {b: msk, b2: sym}
+                rec["where"] = "asymmetric_first_of_two" if order[0] == b else "asymmetric_last_of_two"
     elif cls in ("not_orthonormal", "not_biorthonormal", "pairs_in_hermitian_mode", "exclusive_indices_and_vectors"):
         use_vectors = cls
         if cls in ("not_orthonormal", "not_biorthonormal"):
@@ -268,7 +282,7 @@ def run(pid, tier, seed, replay=None):
             by_class.setdefault(c["class"], []).append(c)
         chosen = []
         for cl, lst in sorted(by_class.items()):
-            chosen += rq.sample(lst, min(len(lst), 14))
+            chosen += rq.sample(lst, min(len(lst), 40))   # (most classes have fewer than 40 configurations: all of them)
         cfgs_run = chosen
     else:
         cfgs_run = cfgs
